@@ -12,23 +12,6 @@ import GgrsModel.Proofs.Checksums
 namespace Ggrs
 open InputQueue
 
-/-- The invariant only reads these parts of the session. -/
-theorem SessInvD_sameQueues (s s2 : P2P) (gh : DGhost) (t : TLState) (reqs : List Request) (st0 : List ConnStatus)
-    (h : SessInvD s gh t reqs st0)
-    (hq : s2.sync.queues = s.sync.queues) (hc : s2.sync.currentFrame = s.sync.currentFrame)
-    (hls : s2.sync.lastSavedFrame = s.sync.lastSavedFrame)
-    (hp : s2.pred = s.pred) (hst : s2.localConnectStatus = s.localConnectStatus) (hh : s2.handles = s.handles)
-    (hsp : s2.sparse = s.sparse) (hdf : s2.disconnectFrame = s.disconnectFrame) :
-    SessInvD s2 gh t reqs st0 := by
-  have hlp : s2.localPlayerHandles = s.localPlayerHandles := by unfold P2P.localPlayerHandles; rw [hh]
-  refine ⟨⟨?_, by rw [hc]; exact h.tinv.exec, by rw [hq]; exact h.tinv.rows, by rw [hq, hc]; exact h.tinv.deadRows⟩,
-    by rw [hst]; exact h.marks, by rw [hq, hc, hst]; exact h.asked, by rw [hq, hc, hst, hdf]; exact h.pend,
-    by rw [hq, hst]; exact h.status, by rw [hq, hst, hlp]; exact h.remote, by rw [hst, hlp]; exact h.localAlive,
-    by rw [hq, hst, hdf]; exact h.safe, by rw [hdf]; exact h.dfok, by rw [hq]; exact h.deadClean,
-    by rw [hsp, hq, hst, hls]; exact h.saved⟩
-  rw [hp]
-  exact SyncInvD_congr h.tinv.sync hq hc
-
 /-- The world invariant with dead players: the session invariant against the game's timeline, and
 the request-checking state that matches game and cells. -/
 structure WInvD {G : Type} (step : G → List (Input × InputStatus) → G) (g0 : G) (s : P2P) (x : GS G) : Prop where
